@@ -39,10 +39,10 @@ namespace engine
 
             void clear()
             {
-                for (std::size_t i = 0; i < Size; ++i)
-                {
-                    data_[i].key = 0ULL;
-                }
+                // back to the freshly constructed state: key 0 is a valid key
+                // (e.g. the pawn key of every pawnless position), so stale
+                // values must not survive
+                data_.assign(Size, Entry());
             }
 
             int32_t hashfull() const
